@@ -167,8 +167,11 @@ func collect[E interface {
 	}
 }
 
-func runList(dir string, stop bool) outcome {
+func runList(dir string, stop, exposure bool) outcome {
 	opts := []connlist.ConnlistAnalyzerOption{connlist.WithLogger(wm.Quiet()), connlist.WithMuteErrsAndWarns()}
+	if exposure {
+		opts = append(opts, connlist.WithExposureAnalysis())
+	}
 	if stop {
 		opts = append(opts, connlist.WithStopOnError())
 	}
@@ -181,7 +184,13 @@ func runList(dir string, stop bool) outcome {
 		ks = append(ks, c.Src().String()+" => "+c.Dst().String()+" : "+connStr(c))
 	}
 	sort.Strings(ks)
-	o.relation, o.entries = strings.Join(ks, "\n"), len(ks)
+	if exposure {
+		// the exposure report is part of the computed result: all of it, as printed
+		if out, err := ca.ConnectionsListToString(conns); err == nil {
+			ks = append(ks, "--- report", out)
+		}
+	}
+	o.relation, o.entries = strings.Join(ks, "\n"), len(conns)
 	return o
 }
 
@@ -245,7 +254,9 @@ func eval(cs Case, x *fw.Rec) {
 	var got, want outcome
 	switch cs.Command {
 	case "list":
-		got, want = runList(dir, cs.Stop), runList(cleanDirs[cs.WI], false)
+		got, want = runList(dir, cs.Stop, false), runList(cleanDirs[cs.WI], false, false)
+	case "list-exposure":
+		got, want = runList(dir, cs.Stop, true), runList(cleanDirs[cs.WI], false, true)
 	case "diff-dir1":
 		got, want = runDiff(dir, otherDir, cs.Stop), runDiff(cleanDirs[cs.WI], otherDir, false)
 	default:
@@ -326,7 +337,7 @@ func firstLine(s string) string {
 }
 
 func Run(r *fw.Run) {
-	r.Rule = "4 valid worlds (NetworkPolicy; none; + ANP; + Service/Ingress) laid out in three manifest files x every subset of size <=2 (the empty one included) of a 19-element junk alphabet x every applicable placement (own file first / last in sort order, sub-directory; for document junk also as an extra document at the start / middle / end of a manifest file) x stopOnError {off,on} x {list, diff as dir1, diff as dir2}, all on real files; non-trivial/distinct = each combination with at least one injected document"
+	r.Rule = "4 valid worlds (NetworkPolicy; none; + ANP; + Service/Ingress) laid out in three manifest files x every subset of size <=2 (the empty one included) of a 19-element junk alphabet x every applicable placement (own file first / last in sort order, sub-directory; for document junk also as an extra document at the start / middle / end of a manifest file) x stopOnError {off,on} x {list, diff as dir1, diff as dir2, list --exposure (whole report compared)}, all on real files; non-trivial/distinct = each combination with at least one injected document"
 	r.Assume = []string{"classification of the junk alphabet: severe = YAML syntax error file, YAML without kind, NetworkPolicy / Deployment failing schema conversion; irrelevant (no severe entry) = ConfigMap, unknown CRD kind, a Service of a foreign API group named like the real Service, Kustomization / kind Cluster config without metadata.name, .txt file, empty file, JSON ConfigMap",
 		"syntactically broken input is placed as its own file (as the statement says); only document junk is added to existing manifest files"}
 	if r.Quick() {
@@ -351,7 +362,10 @@ func Run(r *fw.Run) {
 	// the directories stay until the process ends (violations are re-executed when the run finishes); the scratch root is removed on exit
 	fw.Explore(r, "junk-injection", fw.Full, func(c *fw.Ctx) Case {
 		wi := c.Choose(len(ws), "world")
-		cmd := fw.Pick(c, []string{"list", "diff-dir1", "diff-dir2"}, "command")
+		cmd := fw.Pick(c, []string{"list", "diff-dir1", "diff-dir2", "list-exposure"}, "command")
+		if cmd == "list-exposure" && (len(ws[wi].ANPs) > 0 || ws[wi].BANP != nil) {
+			c.Skip() // exposure analysis refuses admin policies
+		}
 		stop := c.Choose(2, "stopOnError") == 1
 		n := c.Choose(3, "number of injected documents")
 		cs := Case{WI: wi, Stop: stop, Command: cmd}
